@@ -114,6 +114,54 @@ def optimized_cases(_arg):
     return out
 
 
+def colliding_cases():
+    """Round g: a SECOND record type whose descriptor has the same name AND the same 32-bit identifier as the file's type
+    (the identifier is computed over the name and the field names and types strung together: `xw`+`string` and
+    `x`+`wstring` are the same characters).  It is still a second type and must be refused, not encoded under the first
+    type's schema.  -> cases for Trace_Avro (probe kind second-same-name)."""
+    import fastavro
+    from flow.record import RecordDescriptor
+    from flow.record.adapter.avro import AvroWriter
+
+    tmp = common.scratch("c19col")
+    out = []
+    A = [("varint", "n"), ("string", "xw")]
+    B = [("varint", "n"), ("wstring", "x")]
+    for first, second, order in ((A, B, "string xw, then wstring x"), (B, A, "wstring x, then string xw")):
+        for layout in ("last", "middle"):
+            p = os.path.join(tmp, "o.avro")
+            if os.path.exists(p):
+                os.remove(p)
+            D, F2 = RecordDescriptor("av/col", first), RecordDescriptor("av/col", second)
+            case = {"T": "string", "c": "none", "probe": "second-same-name", "layout": f"{layout} (same descriptor hash: {order})", "outcome": "?", "probe_in_file": False,
+                    "good_records_intact": True, "std_reader_opens": True, "descriptor_carried": True, "exc": "none",
+                    "value": "a record of a second type whose identifier coincides with the first type's", "times": 1, "same_identifier": D.identifier == F2.identifier}
+            w = AvroWriter(p)
+            w.write(D(1, "a", _generated=gen.GEN))
+            w.write(D(2, "b", _generated=gen.GEN))
+            refused = False
+            try:
+                w.write(F2(99, "probe", _generated=gen.GEN))
+            except Exception as e:
+                refused, case["exc"] = True, type(e).__name__ + ":" + str(e)[:60]
+            try:
+                if layout == "middle":
+                    w.write(D(3, "c", _generated=gen.GEN))
+                w.flush()
+                w.close()
+                with open(p, "rb") as fh:
+                    std = list(fastavro.reader(fh))
+                ns = [r.get("n") for r in std]
+                case["probe_in_file"] = 99 in ns
+                case["good_records_intact"] = [n for n in ns if n != 99] == ([1, 2, 3] if layout == "middle" else [1, 2])
+            except Exception as e:
+                case["good_records_intact"] = False
+                case["exc"] = "after the probe: " + type(e).__name__ + ":" + str(e)[:60]
+            case["outcome"] = "refused" if refused else ("written-with-first-schema" if case["probe_in_file"] else "dropped")
+            out.append(case)
+    return out
+
+
 def tz_cases(arg):
     """Run in a NEW interpreter whose local time zone (TZ) is not UTC: timestamps of every kind are exported to Avro and
     read back; the instant must not depend on where the exporting process runs."""
@@ -500,6 +548,9 @@ def run(tier):
     for c in common.in_fresh_process("c19", "optimized_cases", None, {"PYTHONOPTIMIZE": "1"}):
         cases.append(c)
         ctx.case(("python -O", c["probe"]))
+    for c in colliding_cases():
+        cases.append(c)
+        ctx.case(("colliding identifier", c["layout"]))
     for n_other in (1, 3):
         cases.append(after_refused_first(n_other))
         ctx.case(("after-refused-first", n_other))
